@@ -11,5 +11,6 @@ CONSTANTS NB = 2
  BugBatchAny = TRUE
  BugAddAfterInsert = FALSE
  BugStaleSubIndex = FALSE
+ BugBatchAbort = FALSE
 INVARIANTS TxReachesPool
 CHECK_DEADLOCK FALSE
